@@ -182,6 +182,35 @@ CHECKS = {
     note="Assumed: A8 numpy's elementary functions are the mathematical ones (COS, SIN, ... are uninterpreted; their values are checked only by the bounded tier); A1 floats as reals; complex arguments, arrays and the "
          "@SpecifyDomain decorators (argument count / shape validation), eval_function and get_number_of_args are outside the value model: bounded tier only. The extraction drops decorators. factorial excluded (scipy absent).",
     design="6/C15"),
+ 'C14': dict(
+    technique="contract-based deductive verification (pyvc) of the operator decision logic of MathArray over an abstract array model (shape tuple, ndim, size; numpy's arithmetic uninterpreted); bounded sweep of the shape lattice against a plain-numpy oracle as stand-in for values",
+    text="Proved for ALL shapes (any number of axes, any lengths) and all operand kinds (number, MathArray, anything else): __add__ reaches numpy's addition only with a zero scalar or an array of exactly "
+         "the same shape (a nonzero number with a proper array, or two arrays of different shapes: MathArrayShapeError; other operands: TypeError); __mul__ scales by numbers and one-element arrays, refuses "
+         "tensors (ndim > 2), multiplies vectors/matrices through np.dot exactly when the inner dimensions agree (otherwise MathArrayShapeError) and collapses a one-element product to its number; "
+         "__truediv__ divides only by numbers / one-element arrays (any other array: MathArrayShapeError), __rtruediv__ refuses every array of ndim > 0; __rmul__ accepts numbers only; __rpow__ accepts only a "
+         "one-element array as exponent; __pow__ returns a value only for one-element arrays (number semantics) or a SQUARE matrix with an integer-valued exponent that is >= 0 or allowed to be negative "
+         "(MathArray._negative_powers), and raises MathArrayShapeError / MathArrayError / TypeError in exactly the other cases; the helper predicates is_number_zero, is_numberlike_array, "
+         "is_numberlike_zero_array, is_square are their definitions. Bounded (not proved): values against a plain-numpy oracle for all 625 ordered pairs of 25 operand kinds x 5 operators, reflected and in-place forms, "
+         "33 exponents, singular matrices, formula strings, product chains of 3-5 operands (triple vector products refused), MatrixGrader negative_powers on/off without leaks (67k quick / 154k thorough cases).",
+    note="Assumed: A8 numpy (ndarray.__add__/__mul__/__truediv__, np.dot raising ValueError exactly on an inner-dimension mismatch, matrix_power raising LinAlgError only for a negative power of a singular matrix with the "
+         "text 'Singular matrix', matrix_rank, item()) -- uninterpreted in the proofs, exercised by the bounded tier; number + array with the array on the right is modelled as the interpreter's reflected dispatch (TypeError path "
+         "in the model; bounded tier checks the real dispatch). eval_product's triple-product rule, eval_array, MatrixGrader.check_response's enable_negative_powers context manager: bounded tier only. "
+         "Known finding (not repaired): numpy scalars on the LEFT of an array bypass the reflected operators.",
+    design="6/C14"),
+ 'C20': dict(
+    technique="contract-based deductive verification (pyvc) of the leaf validators and cross-option rules (vendored voluptuous Range/Length/In/NotIn, library validators, grouping and whitelist rules, configuration source selection); ast-scan obligation for the schema keys; bounded single-option deviation sweep from a documentation-derived option table as stand-in for schema application",
+    text="Proved for all inputs: voluptuous Range.__call__ accepts exactly the values inside the (open or closed, optionally one-sided) bounds, returns the value unchanged and rejects everything else -- including values that "
+         "cannot be ordered -- with RangeInvalid (never TypeError; failed before fix e01c6b0); Length.__call__ likewise for sized values; In/NotIn are membership tests; PercentageString accepts only text ending in '%' whose number "
+         "part is not negative and lets only Invalid escape; all_unique returns its argument only if no two items are equal; validate_blacklist_whitelist_config accepts exactly when not both lists are in use and every name "
+         "is a default function ([None] = no defaults); ListGrader.validate_grouping accepts exactly when (grouped single subgrader is a ListGrader) and (unordered => equal group sizes) and (list of subgraders => one per group, "
+         "ListGrader for every group of more than one item); ObjectWithSchema.__init__ takes the dictionary when one is given and the keyword arguments otherwise, applies registered defaults to dictionaries only, stores the VALIDATED "
+         "configuration, writes nothing but the new object and leaves it unchanged when validation fails. Decided by source scan: every option key of every schema is Required(...) and no schema allows extra keys. "
+         "Bounded (not proved): 32 public classes x 227 documented options: every single-option deviation (in-domain accepted and stored, out-of-domain rejected with a configuration/validation error), defaults, unknown names, "
+         "kwargs/dict equivalence, Cls(obj.config) == obj, answers normalisation, 388 cross-option configurations, random combinations (9.5k quick / 62k thorough cases).",
+    note="Assumed: A15 schema application itself (voluptuous Schema/All/Any/Required compilation and dispatch) is outside the verifier's subset: its effect is covered by the bounded sweep only; apply_registered_defaults (walks __bases__), "
+         "coerce2unicode (recursive comprehension), validate_no_collisions/warn_if_override (set algebra, itertools), SingleListGrader's delimiter chain (needs an acyclicity invariant over nested graders) are bounded-only. "
+         "A6 text formatting/float(text) abstract. all_unique: the converse direction (duplicate-free lists are never rejected) is bounded-only (quantifier alternation). IntegralGrader skipped (scipy absent).",
+    design="6/C20"),
 }
 
 NOT_YET = {}
